@@ -844,6 +844,122 @@ func modelAgrees(a [][]byte, g probe.Goroutine, got probe.Result) bool {
 	return string(a[0]) == got.Out && string(a[2]) == strconv.Itoa(len(got.IDs)) && string(a[1]) == "1" && marks == marksString(got.Flushes)
 }
 
+// diffAt shows where two documents part.
+func diffAt(a, b string) string {
+	i := 0
+	for i < len(a) && i < len(b) && a[i] == b[i] {
+		i++
+	}
+	if i == len(a) && i == len(b) {
+		return "same bytes (flusher calls, errors or ids differ)"
+	}
+	cut := func(s string) string {
+		lo := i - 30
+		if lo < 0 {
+			lo = 0
+		}
+		hi := i + 60
+		if hi > len(s) {
+			hi = len(s)
+		}
+		return s[lo:hi]
+	}
+	return fmt.Sprintf("documents part at byte %d (%d bytes alone, %d interleaved): alone ...%q, interleaved ...%q", i, len(a), len(b), cut(a), cut(b))
+}
+
+// failsInterleaved: the implementation-only part of the judgement (used while shrinking).
+func failsInterleaved(o ilOutcome) bool {
+	if o.frame != "" {
+		return true
+	}
+	for i := range o.got {
+		if !sameResult(o.got[i], o.refs[i]) {
+			return true
+		}
+	}
+	return false
+}
+
+// dropGoroutine removes goroutine d from the scenario and the schedule.
+func dropGoroutine(sc *probe.Scenario, sched []int, d int) (*probe.Scenario, []int) {
+	cp := *sc
+	cp.Gor = append(append([]probe.Goroutine{}, sc.Gor[:d]...), sc.Gor[d+1:]...)
+	var ns []int
+	for _, x := range sched {
+		switch {
+		case x < d:
+			ns = append(ns, x)
+		case x > d:
+			ns = append(ns, x-1)
+		}
+	}
+	return &cp, ns
+}
+
+// shrinkInterleaved looks for a smaller failing scenario: fewer goroutines, fewer renders, plainer renders, a shorter schedule.
+func shrinkInterleaved(tc ilCase) ilCase {
+	budget := 400
+	try := func(sc *probe.Scenario, sched []int) bool {
+		if budget <= 0 {
+			return false
+		}
+		budget--
+		o := runInterleaved(sc, sched)
+		if failsInterleaved(o) {
+			tc = ilCase{sc, sched, strings.TrimSuffix(tc.mode, " (shrunk)") + " (shrunk)", o}
+			return true
+		}
+		return false
+	}
+	for changed := true; changed && budget > 0; {
+		changed = false
+		for d := len(tc.sc.Gor) - 1; d >= 0 && len(tc.sc.Gor) > 1; d-- {
+			if sc, sched := dropGoroutine(tc.sc, tc.sched, d); try(sc, sched) {
+				changed = true
+			}
+		}
+		for g := range tc.sc.Gor {
+			for len(tc.sc.Gor[g].Renders) > 1 {
+				cp := *tc.sc
+				cp.Gor = append([]probe.Goroutine{}, tc.sc.Gor...)
+				rs := cp.Gor[g].Renders
+				cp.Gor[g].Renders = append([]probe.Render{}, rs[:len(rs)-1]...)
+				if !try(&cp, tc.sched) {
+					break
+				}
+				changed = true
+			}
+			for ri := range tc.sc.Gor[g].Renders {
+				r := tc.sc.Gor[g].Renders[ri]
+				for _, plain := range []probe.Render{{C: r.C, Handler: r.Handler, Mw: r.Mw}, {C: r.C, Mw: r.Mw, Head: r.Head, Tail: r.Tail, Flush: r.Flush}} {
+					if plain == r {
+						continue
+					}
+					cp := *tc.sc
+					cp.Gor = append([]probe.Goroutine{}, tc.sc.Gor...)
+					cp.Gor[g].Renders = append([]probe.Render{}, tc.sc.Gor[g].Renders...)
+					cp.Gor[g].Renders[ri] = plain
+					if try(&cp, tc.sched) {
+						changed = true
+						break
+					}
+				}
+			}
+		}
+		for chunk := len(tc.sched) / 2; chunk >= 1; chunk /= 2 {
+			for at := 0; at+chunk <= len(tc.sched); {
+				ns := append(append([]int{}, tc.sched[:at]...), tc.sched[at+chunk:]...)
+				if try(tc.sc, ns) {
+					changed = true
+				} else {
+					at += chunk
+				}
+			}
+		}
+	}
+	return tc
+}
+
 type ilCase struct {
 	sc    *probe.Scenario
 	sched []int
@@ -901,7 +1017,7 @@ func judgeInterleaved(c *core.Ctx, cases []ilCase, family string) (badProp, badT
 			if !sameResult(got, ref) || (refOK && !modelAgrees(a, g, got)) {
 				badProp++
 				failc(c, "property", family+": interleaved = alone", "output-differs-from-alone", input(gi),
-					fmt.Sprintf("alone: %s | interleaved with the others: %s", short(ref.String()), short(got.String())))
+					fmt.Sprintf("%s | alone: %s | interleaved with the others: %s", diffAt(ref.Out, got.Out), short(ref.String()), short(got.String())))
 			}
 			for _, id := range got.IDs {
 				if prev, dup := seen[id]; dup {
@@ -920,7 +1036,7 @@ func interleavedTie(c *core.Ctx) {
 	gc := debug.SetGCPercent(-1)
 	defer func() { runtime.GOMAXPROCS(old); debug.SetGCPercent(gc); runtime.GC() }()
 	t0 := time.Now()
-	n := c.N(400, 6000)
+	n := c.N(700, 6000)
 	var cases []ilCase
 	overlaps, freshToBig, moves := 0, 0, 0
 	for i := 0; i < n; i++ {
@@ -937,6 +1053,13 @@ func interleavedTie(c *core.Ctx) {
 		moves += out.moves
 		if i%64 == 63 {
 			runtime.GC()
+		}
+	}
+	for _, tc := range cases {
+		if failsInterleaved(tc.out) {
+			// the first failing scenario, shrunk, is reported first
+			cases = append([]ilCase{shrinkInterleaved(tc)}, cases...)
+			break
 		}
 	}
 	badProp, badTie, badFrame, badIDs := judgeInterleaved(c, cases, "interleaved")
